@@ -42,11 +42,14 @@ OTHER = {
    text="EventRing.tla (id-indexed history with Add/Resize/Query/Recent), EventStore.tla and EventStream.tla (publisher and subscriber split into the steps the code takes) are explored exhaustively by TLC for capacities 1..4, <=9 ids, all (start,count) in 0..10 x 0..10, 1-2 subscribers, <=4 events; all behaviours are replayed on the real objects (pointer identity of records), stream interleavings are forced on the real EventStreaming/EventSystemImpl through the verif gates",
    note="trusted: TLC, the gate-steered replayer (a blocked CreateEventStream / PublishEvent is released by the schedule), delivery time-outs of 10 s"),
 }
+OTHER["C19"] = dict(engine="sorting-conformance", cat="model_checking", tech="TLA+ specification of the documented sort orders (Sorting.tla) and of the node collection (NodeColl.tla); recorded permutation experiments on the real sorters validated by TLC (SortingTrace.tla), TLC-generated node-collection behaviours replayed lock-step",
+   text="Sorting.tla gives each policy's documented strict weak order (TLC checks it IS a strict weak order over a finite key domain); real queues/applications/asks with keys from a small domain are presented to the real sorters in EVERY permutation and the records are validated by TLC: output is a permutation, no pair inverted, relative order of distinguished pairs independent of the input permutation; NodeColl.tla behaviours (add/remove/allocate/release/foreign/reserve/policy change, exhaustive to depth 5/6 plus simulation) are replayed on a real NodeCollection comparing both iterators after every step",
+   note="trusted: TLC, the record format of ykh sortrec, explicit (never wall-clock) time keys")
 NA = {
  "C05": "check under construction in this revision (usage invariants exist in YKTrace.tla; the limit-enforcement step check and the UpdateConfig lock-step replay are not registered yet)",
  "C14": "check under construction in this revision (concurrent mode not registered yet)",
  "C15": "check under construction in this revision", "C17": "check under construction in this revision",
- "C19": "check under construction in this revision",
+
 }
 for p, o in OTHER.items():
     checks.append({"property_id": p, "quick_cmd": "bin/check %s quick" % p, "thorough_cmd": "bin/check %s thorough" % p, "evidence_file": "/verif/evidence/%s.json" % p,
@@ -62,6 +65,7 @@ m = {
    {"name": "model+trace-validation", "path": "/verif/vlib/modelgen.py", "serves_properties": sorted(MODEL), "kind_free_text": "TLC exhaustive model checking of spec/YuniKorn.tla (MC_YK*.cfg) and TLC-generated tests replayed through the harness and validated step by step"},
    {"name": "lockstep-resarith", "path": "/verif/vlib/resarith.py", "serves_properties": ["C18"], "kind_free_text": "TLC/Apalache on spec/ResOps.tla, Int64Sat.tla, Quantity.tla + ykh resarith lock-step replay"},
    {"name": "lockstep-events", "path": "/verif/vlib/events.py", "serves_properties": ["C20"], "kind_free_text": "TLC on spec/EventRing.tla, EventStore.tla, EventStream.tla + ykh events replay (ring/store lock-step, stream interleavings with gates)"},
+   {"name": "sorting-conformance", "path": "/verif/vlib/sorting.py", "serves_properties": ["C19"], "kind_free_text": "ykh sortrec records permutation experiments on the real sorters, TLC validates them against spec/Sorting.tla; ykh nodecoll replays spec/NodeColl.tla behaviours"},
    {"name": "trace-validation", "path": "/verif/vlib/tracecheck.py", "serves_properties": sorted(TRACE), "kind_free_text": "Go harness (harness/) drives the real ClusterContext synchronously and logs NDJSON; TLC validates every step against spec/YKTrace.tla"},
  ],
  "checks": checks,
